@@ -663,3 +663,25 @@ func symConv(t_dst, t_src types.Type, x value) value {
 }
 
 var _ = unsafe.Pointer(nil)
+
+
+// symFloatMinMax: Go's min/max on floats: NaN if either is NaN, -0 < +0.
+func symFloatMinMax(k types.BasicKind, x, y value, isMin bool) value {
+	a, b := termOf(x), termOf(y)
+	nan := FPConst(0x7ff8000000000001, SF64)
+	if k == types.Float32 {
+		nan = FPConst(0x7fc00000, SF32)
+	}
+	anyNaN := Or(FPPred(OFPIsNaN, a), FPPred(OFPIsNaN, b))
+	var pick *Term
+	ab, bb := FPToBits(a), FPToBits(b)
+	if isMin {
+		// equal (incl. +0/-0): or the bit patterns (min(-0,+0) = -0)
+		eq := FPFromBits(Bin(OOr, ab, bb), a.Sort)
+		pick = Ite(FPCmp(OFPLt, a, b), a, Ite(FPCmp(OFPLt, b, a), b, eq))
+	} else {
+		eq := FPFromBits(Bin(OAnd, ab, bb), a.Sort)
+		pick = Ite(FPCmp(OFPLt, b, a), a, Ite(FPCmp(OFPLt, a, b), b, eq))
+	}
+	return mkVal(k, Ite(anyNaN, nan, pick))
+}
